@@ -24,6 +24,7 @@ type c01Oracle struct {
 	restarts  int
 	ended     bool
 	extra     int
+	outOfGas  int
 }
 
 func evStr(evs []abci.Event) string {
@@ -70,7 +71,7 @@ func (o *c01Oracle) after(ch *chain, ci *callInfo) *Violation {
 		var rb abci.ResponseInitChain
 		pb := safeCall(func() {
 			rb = o.b.InitChain(abci.RequestInitChain{ChainId: simChainID, Time: simGenesisTime, ConsensusParams: &abci.ConsensusParams{
-				Block: &abci.BlockParams{MaxBytes: 1 << 20, MaxGas: -1}, Evidence: &abci.EvidenceParams{MaxAge: 100000},
+				Block: &abci.BlockParams{MaxBytes: 1 << 20, MaxGas: ch.p.Gen.maxGas()}, Evidence: &abci.EvidenceParams{MaxAge: 100000},
 				Validator: &abci.ValidatorParams{PubKeyTypes: []string{"ed25519"}}}})
 		})
 		if v, stop := bothPanic(pb); stop {
@@ -123,6 +124,9 @@ func (o *c01Oracle) after(ch *chain, ci *callInfo) *Violation {
 		}
 		if ra.Code == 0 {
 			o.accepted++
+		}
+		if ra.Code == 12 { // sdk.CodeOutOfGas
+			o.outOfGas++
 		}
 	case "end":
 		for _, q := range ch.p.Blocks[ci.BlockIx].Queries {
@@ -195,7 +199,13 @@ func genC01(t *rapid.T, tier string) interface{} {
 	if tier == "thorough" {
 		pr.MaxBlocks = 60
 	}
-	return genHistory(t, pr)
+	p := genHistory(t, pr)
+	// 1 history in 3 runs under a block gas limit (a consensus parameter of the InitChain request): store accesses
+	// are metered and a block that has used its gas refuses the rest of its transactions - on both instances alike
+	if rapid.IntRange(0, 2).Draw(t, "gaslimited") == 0 {
+		p.Gen.MaxGas = rapid.SampledFrom([]int64{1, 30000, 100000, 300000, 1000000, 3000000, 10000000}).Draw(t, "maxgas")
+	}
+	return p
 }
 
 func execC01(prog interface{}, c *Case) *Violation {
@@ -225,6 +235,12 @@ func execC01(prog interface{}, c *Case) *Violation {
 	}
 	if p.Gen.ExtraSigning >= 3 {
 		c.Label("genesis-with-map-typed-sections")
+	}
+	if p.Gen.MaxGas > 0 {
+		c.Label("block-gas-limit")
+		if o.outOfGas > 0 && o.accepted > 0 {
+			c.Label("block-gas-limit-refused-some-and-admitted-some")
+		}
 	}
 	if o.extra > 0 {
 		c.Label("extra-read-only-traffic")
